@@ -689,6 +689,27 @@ func execStore(run *core.Run, p *plan) {
 				}
 			}
 		}
+		// the same through the query path, which finds the series in the index
+		// (a read by series key does not consult it)
+		obsI, err := sim.ReadIterators(id, storesim.FullRange, []string{"m"})
+		if err != nil {
+			run.Fail("read-failed-under-concurrency", what, "%s: query over measurement m: %v", what, err)
+			return false
+		}
+		for k, ws := range written {
+			parts := strings.SplitN(k, "/", 2)
+			got := map[int64]bool{}
+			for _, tv := range obsI[parts[0]][parts[1]] {
+				got[tv.T] = true
+			}
+			for t, w := range ws {
+				if w.acked && !got[t] {
+					run.Fail("acknowledged-write-invisible-to-queries", what, "%s: the acknowledged write (%s %s @%d = %v) is returned by a read by series key but not by a query over the measurement: the series is missing from the index", what, parts[0], parts[1], t, w.v)
+					return false
+				}
+			}
+		}
+		run.Probe("final-state-checked-through-the-index")
 		return true
 	}
 	if !final("after the run") {
